@@ -73,10 +73,14 @@ Fresh(e) == IF Len(e.fresh) > 0 THEN e.fresh[1] ELSE 0
 
 PolOf(r) == [v2 |-> r.v2, v3 |-> r.v3, req |-> r.req, wstag |-> r.wstag, wsstart |-> r.wsstart, errstart |-> r.errstart]
 
+\* an incoming line that a user typed and that begins like a query message keeps the versions it names
+InMsg(m) == IF m.t = "P" /\ "q" \in DOMAIN m
+            THEN [t |-> "P", text |-> m.text, tag |-> m.tag, tagged |-> m.tagged, q |-> m.q] ELSE NormMsg(m)
+
 \* the specification step for an event
 Apply(e) ==
   LET s == st[e.p]
-  IN CASE e.ev = "Recv" -> ReceiveFrags(s, NormMsg(e.m), e.m.nf, Fresh(e), e.hi)
+  IN CASE e.ev = "Recv" -> ReceiveFrags(s, InMsg(e.m), e.m.nf, Fresh(e), e.hi)
        [] e.ev = "Send" -> Send(s, e.text)
        [] e.ev = "End" -> End(s)
        [] e.ev = "Query" -> Query(s)
